@@ -54,14 +54,25 @@ var wraps = map[string]wrap{
 var wrapNames = []string{"if", "for", "else", "elif", "forin", "forin_map", "forin_str", "after_cont", "after_brk", "before_brk", "nested", "if_in_if"}
 
 func useText(c Call) string {
-	switch c.Lay % 3 {
+	switch c.Lay {
 	case 1:
 		return fmt.Sprintf("use (%q)", c.Target)
 	case 2:
 		return fmt.Sprintf("use( %q ) # use(\"zz.p\")", c.Target)
+	case 3:
+		// the keyword spelling of the documented prototype `fn use(name: str)`: an implementation
+		// either rejects it at check time or treats it exactly like the positional call
+		return fmt.Sprintf("use(name=%q)", c.Target)
 	}
 	return fmt.Sprintf("use(%q)", c.Target)
 }
+
+// keywordFormAccepted asks the implementation under test whether it accepts use(name="...").
+func keywordFormAccepted(calls map[string]runtime.FuncCall, checks map[string]runtime.FuncCheck) bool {
+	okM, _ := engine.ParseScript(map[string]string{"kwa.p": "use(name=\"kwb.p\")\n", "kwb.p": "add_key(kwb, 1)\n"}, calls, checks)
+	return okM["kwa.p"] != nil
+}
+
 
 type Script struct {
 	Name  string `json:"name"`
@@ -287,6 +298,9 @@ func gen(r *simrt.RNG) Workload {
 				}
 			}
 			c := Call{Target: t, Lay: r.Intn(3)}
+			if r.Intn(12) == 0 {
+				c.Lay = 3
+			}
 			switch r.Intn(6) {
 			case 0:
 				c.Wrap = "if"
@@ -348,9 +362,28 @@ func (Prop) Run(p *core.Plan) *core.Result {
 			res.Infra = "step budget exceeded in the loader"
 		}
 	}()
+	calls, checks := plenv.Tables(nil, nil)
+	// scripts that spell a call use(name="x"): where the implementation rejects that form they are
+	// check-failing scripts (the call itself is the broken line), where it accepts the form the call
+	// is a use call like any other
+	hasKw := false
+	for _, s := range w.Scripts {
+		for _, c := range s.Calls {
+			hasKw = hasKw || c.Lay == 3
+		}
+	}
+	if hasKw && !keywordFormAccepted(calls, checks) {
+		for i := range w.Scripts {
+			for _, c := range w.Scripts[i].Calls {
+				if c.Lay == 3 && w.Scripts[i].Kind == "ok" {
+					w.Scripts[i].Kind, w.Scripts[i].BadAt = "check_err", -1
+				}
+			}
+		}
+		res.Probes["sets_with_keyword_form_rejected"]++
+	}
 	rd := render(&w)
 	m := newModel(&w)
-	calls, checks := plenv.Tables(nil, nil)
 	viol := func(class, key, detail string) *core.Result {
 		res.Violation = &core.Violation{Class: "C09/" + class, Key: key, Detail: detail + "\nset: " + describe(&w)}
 		res.NonTrivial = true
